@@ -111,6 +111,8 @@ def findings(inp, res):
                              observed="first use of %s in the process: thread A runs %d lines, thread B builds its command completely, A resumes: %s instead of %s" % (
                                  p["a"]["cls"], r["bad"]["a_lines"], str(r["bad"]["interleaved"])[:200], str(r["bad"]["alone"])[:200])))
             break
+    if res.get("recycled"):
+        hits.append(dict(kind="c09-recycled", id="a discarded command's data-in buffer reaches a later command", observed=res["recycled"]))
     ph = res.get("param_history")
     if ph:
         hits.append(dict(kind="c09-param-history", id="parameter-list command in a history changes what another class decodes / encodes",
@@ -149,6 +151,9 @@ def replay(obj):
         inp = build_input(summary, int(os.environ.get("VERIF_SEED", "20260929")), "quick")
         res = run_impl(dict(histories=inp["histories"][:200], pairs=[]))
         return not res.get("cdb_fresh"), ("still: %s" % res["cdb_fresh"] if res.get("cdb_fresh") else "results are fresh objects")
+    if obj.get("kind") == "c09-recycled":
+        res = run_impl(dict(histories=[], pairs=[], seed=0, n_param_hist=1))
+        return not res.get("recycled"), ("still: %s" % res["recycled"] if res.get("recycled") else "every command gets its own zero-filled buffer")
     if obj.get("kind") == "c09-param-history":
         res = run_impl(dict(histories=[], pairs=[], seed=obj.get("seed") or 0, n_param_hist=obj.get("n_param_hist") or 4))
         ph = res.get("param_history")
